@@ -65,8 +65,8 @@ CLAIMED = {
    technique="CrossHair symbolic execution (z3) of the real constructors + own symbolic execution of plans and of clang LLVM IR behind the real ctypes wrappers (bounds-checked memory) + z3; replay on the unmodified code (valgrind memcheck for out-of-bounds accesses)",
    design="4/C18"),
  "C16": dict(
-   text="The real MOLGP.__init__/reset_reactions/add_reactions/fit/compute_likelihood are executed symbolically on duck-typed kernels that carry exactly the state the property names (cov/base/dcov/dbase dictionaries, rxn_cov_list, Kmm, alpha) with symbolic contents; scipy's cholesky/cho_solve and numpy's slogdet are replaced by their definitions over exact reals. z3 / the polynomial normal form decide, without inverting anything on the oracle side: labels = documented reference minus counted baselines (+ energy*unit - KS baselines for XC reactions, default unit included), noises = documented combination of noise / noise_factor / noise_rel_factor / weight, covariance rows = counted sums (zero rows for correlation kernels in exchange-only reactions); after fit (Kmm + eps I) alpha_k == Kmn alpha_mol for every kernel and sum_k Knm alpha_k + (Sigma + eps I) alpha_mol == y (hence the residual equals the noise covariance applied to alpha_mol) with symbolic numerical_epsilon >= 0; permuting the reaction list permutes alpha_mol and leaves every kernel.alpha unchanged; reset_reactions + re-adding reproduces the lists; compute_likelihood equals the Gaussian log marginal likelihood; modes 1 and > 2 are refused.",
-   note="1-2 control points per kernel, 1-2 kernels (x, c, xc), 1-3 reactions; fit consumes fresh symbols for the stored lists (their composition is decided separately); NOT covered: _compute_mol_covs/store_mol_covs (file loading, grid integration, density mask), control-point selection, optimize_cov_and_noise_, MOLGP2, non-default x; likelihood compared at sigma_min = 0.",
+   text="The real MOLGP.__init__/reset_reactions/add_reactions/fit/compute_likelihood are executed symbolically on duck-typed kernels that carry exactly the state the property names (cov/base/dcov/dbase dictionaries, rxn_cov_list, Kmm, alpha) with symbolic contents; scipy's cholesky/cho_solve and numpy's slogdet are replaced by their definitions over exact reals. z3 / the polynomial normal form decide, without inverting anything on the oracle side: labels = documented reference minus counted baselines (+ energy*unit - KS baselines for XC reactions, default unit included), noises = documented combination of noise / noise_factor / noise_rel_factor / weight, covariance rows = counted sums (zero rows for correlation kernels in exchange-only reactions); after fit (Kmm + eps I) alpha_k == Kmn alpha_mol for every kernel and sum_k Knm alpha_k + (Sigma + eps I) alpha_mol == y (hence the residual equals the noise covariance applied to alpha_mol) with symbolic numerical_epsilon >= 0; permuting the reaction list permutes alpha_mol and leaves every kernel.alpha unchanged; reset_reactions + re-adding reproduces the lists; compute_likelihood equals the Gaussian log marginal likelihood; modes 1 and > 2 are refused; _compute_mol_covs (data loading stubbed by symbolic arrays, kernel covariance and baselines as leaf functions) stores cov = sum_g w_g k m and base = sum_g w_g a with the rho < 1e-6 mask applied to values and derivatives alike (mask decided by solver forking), the orbital-derivative entries are the directional derivatives of the same sums, and the reference dictionaries hold sum val*w and e_tot - exc.",
+   note="1-2 control points per kernel, 1-2 kernels (x, c, xc), 1-3 reactions; fit consumes fresh symbols for the stored lists (their composition is decided separately); _compute_mol_covs at 2 grid points (single block), identity normalisers; NOT covered: load_data/store_mol_covs file handling, control-point selection, optimize_cov_and_noise_, MOLGP2, non-default x; likelihood compared at sigma_min = 0.",
    technique="symbolic execution of the training code with exact-real definitions of the LAPACK calls + polynomial normal form / z3 identities on the solved weights; replay on the unmodified code with scipy",
    design="4/C16"),
  "C10": dict(
